@@ -5,7 +5,11 @@
      memo-map 0.3.3                MemoMap::{replace, remove, clear, get_or_try_insert, clone}
      minijinja/src/environment.rs  Environment::{new, add_template, add_template_owned, remove_template,
                                    clear_templates, set_loader, get_template, add_/remove_ filter/test/global
-                                   (Arc::make_mut on the registry), derive(Clone)}
+                                   (Arc::make_mut on the registry), derive(Clone),
+                                   set_trim_blocks/set_keep_trailing_newline/... (template_config),
+                                   template_from_named_str, template_from_str, render_named_str, render_str,
+                                   compile_expression, compile_expression_owned (ad-hoc entry points: the
+                                   store is neither read nor written)}
      minijinja/src/defaults.rs     get_builtin_filters/tests, get_globals (one process-wide Arc per registry)
 
    Maps are association lists; a compiled template is kept together with the source it was compiled
@@ -38,55 +42,59 @@ Arguments amap V : clear implicits.
 (* the two-tier template store *)
 Section Store.
   Variable tmpl : Type.
-  Variable compile : src -> cres tmpl.            (* CompiledTemplate::new with the store's template_config *)
+  Variable compile : cmode -> src -> cres tmpl.   (* CompiledTemplate::new under a template_config; parse_expr + codegen *)
   Variable loader : Z -> Z -> name -> lres.       (* loader closure l, asked at world time t for a name *)
   (* [true]: loader.rs as it was before the fix (the other tier is evicted before compiling);
      [false]: loader.rs with commit "fix: ... compile before evicting" *)
   Variable evict_first : bool.
 
   Record store := {
-    borrowed : amap (src * tmpl);    (* borrowed_templates: BTreeMap<&'source str, Arc<CompiledTemplate>> *)
-    owned : amap (src * tmpl);       (* owned_templates: MemoMap<Arc<str>, Arc<LoadedTemplate>>: added AND loaded ones *)
-    ldr : option Z                   (* loader: Option<Arc<LoadFunc>> *)
+    borrowed : amap ((Z * src) * tmpl);  (* borrowed_templates: BTreeMap<&'source str, Arc<CompiledTemplate>> *)
+    owned : amap ((Z * src) * tmpl);     (* owned_templates: MemoMap<Arc<str>, Arc<LoadedTemplate>>: added AND loaded ones *)
+    ldr : option Z;                      (* loader: Option<Arc<LoadFunc>> *)
+    cfg : Z                              (* template_config (a compiled template is kept with the config it was compiled under) *)
   }.
 
-  Definition store_new : store := {| borrowed := []; owned := []; ldr := None |}.
+  Definition store_new : store := {| borrowed := []; owned := []; ldr := None; cfg := 0 |}.
 
   (* insert_cow, arm (Cow::Borrowed(source), Cow::Borrowed(name)) *)
   Definition insert_borrowed (s : store) (n : name) (x : src) : store * option Z :=
     if evict_first then
       let o1 := a_remove (owned s) n in
-      match compile x with
-      | CErr c => ({| borrowed := borrowed s; owned := o1; ldr := ldr s |}, Some c)
-      | COk t => ({| borrowed := a_insert (borrowed s) n (x, t); owned := o1; ldr := ldr s |}, None)
+      match compile (MTemplate (cfg s)) x with
+      | CErr c => ({| borrowed := borrowed s; owned := o1; ldr := ldr s; cfg := cfg s |}, Some c)
+      | COk t => ({| borrowed := a_insert (borrowed s) n ((cfg s, x), t); owned := o1; ldr := ldr s; cfg := cfg s |}, None)
       end
     else
-      match compile x with
+      match compile (MTemplate (cfg s)) x with
       | CErr c => (s, Some c)
-      | COk t => ({| borrowed := a_insert (borrowed s) n (x, t); owned := a_remove (owned s) n; ldr := ldr s |}, None)
+      | COk t => ({| borrowed := a_insert (borrowed s) n ((cfg s, x), t); owned := a_remove (owned s) n; ldr := ldr s; cfg := cfg s |}, None)
       end.
 
   (* insert_cow, arm (source, name) for every other combination *)
   Definition insert_owned (s : store) (n : name) (x : src) : store * option Z :=
     if evict_first then
       let b1 := a_remove (borrowed s) n in
-      match compile x with
-      | CErr c => ({| borrowed := b1; owned := owned s; ldr := ldr s |}, Some c)
-      | COk t => ({| borrowed := b1; owned := a_insert (owned s) n (x, t); ldr := ldr s |}, None)
+      match compile (MTemplate (cfg s)) x with
+      | CErr c => ({| borrowed := b1; owned := owned s; ldr := ldr s; cfg := cfg s |}, Some c)
+      | COk t => ({| borrowed := b1; owned := a_insert (owned s) n ((cfg s, x), t); ldr := ldr s; cfg := cfg s |}, None)
       end
     else
-      match compile x with
+      match compile (MTemplate (cfg s)) x with
       | CErr c => (s, Some c)
-      | COk t => ({| borrowed := a_remove (borrowed s) n; owned := a_insert (owned s) n (x, t); ldr := ldr s |}, None)
+      | COk t => ({| borrowed := a_remove (borrowed s) n; owned := a_insert (owned s) n ((cfg s, x), t); ldr := ldr s; cfg := cfg s |}, None)
       end.
 
   Definition remove (s : store) (n : name) : store :=
-    {| borrowed := a_remove (borrowed s) n; owned := a_remove (owned s) n; ldr := ldr s |}.
+    {| borrowed := a_remove (borrowed s) n; owned := a_remove (owned s) n; ldr := ldr s; cfg := cfg s |}.
 
-  Definition clear (s : store) : store := {| borrowed := []; owned := []; ldr := ldr s |}.
+  Definition clear (s : store) : store := {| borrowed := []; owned := []; ldr := ldr s; cfg := cfg s |}.
+
+  Definition set_config (s : store) (c : Z) : store :=
+    {| borrowed := borrowed s; owned := owned s; ldr := ldr s; cfg := c |}.
 
   Definition set_loader (s : store) (l : Z) : store :=
-    {| borrowed := borrowed s; owned := owned s; ldr := Some l |}.
+    {| borrowed := borrowed s; owned := owned s; ldr := Some l; cfg := cfg s |}.
 
   (* LoaderStore::get: borrowed tier, then MemoMap::get_or_try_insert whose creator asks the loader and
      compiles; only a successfully compiled result is inserted *)
@@ -104,9 +112,9 @@ Section Store.
                 | LFail c => (s, GErr c)
                 | LMissing => (s, GErr E_TemplateNotFound)
                 | LFound x =>
-                    match compile x with
+                    match compile (MTemplate (cfg s)) x with
                     | CErr c => (s, GErr c)
-                    | COk t => ({| borrowed := borrowed s; owned := a_insert (owned s) n (x, t); ldr := ldr s |}, GOk t)
+                    | COk t => ({| borrowed := borrowed s; owned := a_insert (owned s) n ((cfg s, x), t); ldr := ldr s; cfg := cfg s |}, GOk t)
                     end
                 end
             end
@@ -120,6 +128,7 @@ Section Store.
     | ORemove n => (remove s n, SUnit)
     | OClear => (clear s, SUnit)
     | OSetLoader l => (set_loader s l, SUnit)
+    | OSetConfig c => (set_config s c, SUnit)
     | OGet n now => let (s', r) := get s n now in (s', SGot r)
     end.
 
@@ -170,7 +179,7 @@ Definition arc_make_mut (h : heap) (id : Z) (f : reg -> reg) : heap * Z :=
 (* environments and the world of a history *)
 Section World.
   Variable tmpl : Type.
-  Variable compile : src -> cres tmpl.
+  Variable compile : cmode -> src -> cres tmpl.
   Variable loader : Z -> Z -> name -> lres.
   Variable evict_first : bool.
   Variable builtin : rk -> reg.                              (* defaults.rs: the built-in registries *)
@@ -220,6 +229,9 @@ Section World.
   Definition observe (h : heap) (e : env) (n : name) (now : Z) : obs :=
     show_get h e (snd (get tmpl compile loader (st e) n now)).
 
+  Definition adhoc_mode (how c : Z) : cmode :=
+    if how <? 4 then MTemplate c else if how <? 6 then MExpr else MAnalysis.
+
   Definition reg_update (w : world) (k : rk) (f : reg -> reg) : world :=
     let (h', id') := arc_make_mut (hp w) (handle (cur w) k) f in
     {| hp := h'; cur := set_handle (cur w) k id'; other := other w |}.
@@ -242,8 +254,14 @@ Section World.
         | Some e => ({| hp := hp w; cur := e; other := Some (cur w) |}, o_unit)
         | None => (w, o_unit)
         end
-    | WRenderStr x =>
-        (w, match compile x with COk t => render t (regs_of (hp w) (cur w)) | CErr c => o_err c end)
+    | WAdhoc how n x =>
+        (* template_from_named_str / template_from_str / render_named_str / render_str compile the given
+           source under the current template_config into a temporary template; compile_expression(_owned)
+           compiles an expression; nothing is looked up in or written to the store, whatever the name *)
+        (w, match compile (adhoc_mode how (cfg _ (st (cur w)))) x with
+            | COk t => render t (regs_of (hp w) (cur w))
+            | CErr c => o_err c
+            end)
     | WRenderBadCtx n now panics =>
         let (s', r) := get tmpl compile loader (st (cur w)) n now in
         ({| hp := hp w; cur := set_store (cur w) s'; other := other w |},
